@@ -105,7 +105,7 @@ Variations ==
     \cup {<<"stop_times.txt", 1, "timepoint", Num(d)>> : d \in {0, 1}} \cup {<<"stop_times.txt", 1, "shape_dist_traveled", v>> : v \in Decs}
     \cup {<<"stop_times.txt", 1, "stop_headsign", v>> : v \in Texts} \cup {<<"stop_times.txt", 3, "stop_id", Id(4)>>}
 PoolC01(z) ==
-    {MkCase(BaseFeed, FALSE, NoBase, FALSE, "C01.wellformed", 12)}
+    {MkCase(BaseFeed, FALSE, NoBase, FALSE, "C01.wellformed", 50)}
     \cup {MkCase(SetCell(BaseFeed, x[1], x[2], x[3], x[4]), FALSE, NoBase, FALSE, "C01.wellformed", 2) : x \in Variations}
 
 (* ---------------- C03: hostile references ---------------- *)
@@ -123,6 +123,10 @@ PoolC03refs(z) ==
         rq \in SeqsOf({HRoute(Id(1), Id(1)), HRoute(Id(1), Id(2)), HRoute(Id(3), Blank), HRoute(Id(3), Id(3)), HRoute(Blank, Id(1))}, 1, 2),
         tq \in SeqsOf({HTrip(Id(1), Id(1), Id(3), Id(3)), HTrip(Id(2), Id(3), Id(2), Id(2)), HTrip(Id(1), Id(4), Id(1), Blank), HTrip(Id(2), Id(1), Id(5), Id(1)),
                        HTrip(Blank, Id(1), Id(1), Blank), HTrip(Id(2), Id(1), Id(1), Blank)}, 1, 2)}
+    \cup (* shapes: valid, blank and dangling shape ids in every order of 3 trips on an existing route and service *)
+    {MkCase(SetRows(BaseFeed, "trips.txt", tq), FALSE, NoBase, FALSE, "", 0) :
+        tq \in SeqsOf({HTrip(Id(1), Id(1), Id(3), Id(3)), HTrip(Id(2), Id(1), Id(2), Id(2)), HTrip(Id(3), Id(1), Id(1), Blank), HTrip(Id(4), Id(1), Id(3), Id(1)),
+                       HTrip(Id(5), Id(3), Id(3), Id(4))}, 2, 3)}
     \cup {MkCase(SetRows(SetRows(BaseFeed, "agency.txt", <<Agency(1, 1, 1)>>), "routes.txt", rq), FALSE, NoBase, FALSE, "", 0) :
             rq \in SeqsOf({HRoute(Id(1), Id(1)), HRoute(Id(3), Blank), HRoute(Id(3), Id(2)), HRoute(Id(1), Id(3))}, 1, 2)}
 
@@ -137,6 +141,12 @@ PoolC08(z) ==
         : p \in Perms(6)}
     \cup {MkCase(SetRows(BaseFeed, "shapes.txt", Permute(C08Shapes, p)), FALSE, <<SetRows(BaseFeed, "shapes.txt", C08Shapes)>>, FALSE, "C08.permutation", 0)
         : p \in Perms(6)}
+
+PoolC08files(z) ==
+    UNION {{MkCase(SetRows(BaseFeed, f, Permute(BaseFeed[f], p)), FALSE, NoBase, FALSE, "", 0) : p \in Perms(Len(BaseFeed[f]))}
+             : f \in {"agency.txt", "routes.txt", "stops.txt", "transfers.txt", "trips.txt", "frequencies.txt", "calendar_dates.txt", "calendar.txt"}}
+    \cup {MkCase(SetRows(SetRows(BaseFeed, "trips.txt", Permute(tr, p)), "stop_times.txt", C08StopTimes), FALSE, NoBase, FALSE, "", 0)
+            : p \in Perms(3), tr \in {<<Trip(3, 1, 3, Blank), Trip(1, 3, 2, Id(3)), Trip(2, 1, 3, Blank)>>}}
 
 (* ---------------- C09: rejected rows inserted anywhere ---------------- *)
 InsRow(rows, k, row) == SubSeq(rows, 1, k) \o <<row>> \o SubSeq(rows, k + 1, Len(rows))
@@ -191,22 +201,26 @@ PoolC10(z) ==
         : pt \in {0, 1, 2}, pw \in 0..2, ct \in {0, 2, 4}, cw \in 0..2, cw2 \in {0, 1}, par \in {Blank, Id(4)}}
 
 (* ---------------- C11: calendars ---------------- *)
-CalRows == {Calendar(3, 2, 5), Calendar(1, 3, 4), Calendar(3, 1, 8) ++ [monday |-> Num(0), sunday |-> Num(1)], Calendar(2, 4, 4) ++ [start_date |-> Bad(3)]}
+CalRows == {Calendar(3, 2, 5), Calendar(1, 3, 4), Calendar(3, 1, 8) ++ [monday |-> Num(0), sunday |-> Num(1)], Calendar(2, 4, 4) ++ [start_date |-> Bad(3)],
+            Calendar(3, 7, 2), Calendar(2, 1, 8) ++ [wednesday |-> Blank], Calendar(3, 1, 8) ++ [sunday |-> Blank], Calendar(2, 3, 6) ++ [end_date |-> Blank]}
 ExcRows == {CalDate(s, D(d), Num(typ)) : s \in {3, 2}, d \in {1, 3, 5, 7}, typ \in {1, 2}} \cup {CalDate(3, D(8), Num(3)), CalDate(4, D(6), Num(0)), CalDate(2, Bad(3), Num(1))}
 TzAgencies == {<<Agency(1, 1, 1), Agency(2, 2, 3)>>, <<Agency(2, 2, 3), Agency(1, 1, 1)>>, <<Agency(1, 1, 4), Agency(2, 2, 5)>>, <<Agency(1, 1, 5)>>,
                <<Agency(3, 7, 1) ++ [agency_url |-> Blank], Agency(2, 2, 3)>>}
 PoolC11(z) ==
     {MkCase(SetRows(SetRows(SetRows(SetRows(BaseFeed, "calendar.txt", cq), "calendar_dates.txt", eq), "agency.txt", ag),
                     "routes.txt", <<Route(1, 2, 1)>>), FALSE, NoBase, FALSE, "", 0)
-        : cq \in SeqsOf(CalRows, 0, 2), eq \in SeqsOf(ExcRows, 0, 2), ag \in {<<Agency(2, 2, 3)>>}}
+        : cq \in SeqsOf(CalRows, 0, 2), eq \in {e \in SeqsOf(ExcRows, 0, 2) : z = 0 \/ Len(e) <= 1}, ag \in {<<Agency(2, 2, 3)>>}}
+    \cup {MkCase(SetRows(SetRows(SetRows(SetRows(BaseFeed, "calendar.txt", cq), "calendar_dates.txt", eq), "agency.txt", <<Agency(2, 2, 3)>>),
+                    "routes.txt", <<Route(1, 2, 1)>>), FALSE, NoBase, FALSE, "", 0)
+        : cq \in SeqsOf(CalRows, 0, 1), eq \in SeqsOf(ExcRows, 2, 2)}
     \cup {MkCase(SetRows(BaseFeed, "agency.txt", ag), FALSE, NoBase, FALSE, "", 0) : ag \in TzAgencies}
 PoolC11b(z) ==
     {MkCase(SetRows(SetRows(BaseFeed, "calendar.txt", <<Calendar(3, 3, 5)>>), "calendar_dates.txt", eq), FALSE, NoBase, FALSE, "", 0)
         : eq \in SeqsOf({CalDate(3, D(d), Num(typ)) : d \in {1, 4, 8}, typ \in {1, 2, 3}} \cup {CalDate(2, D(2), Num(1))}, 3, 3)}
 
 (* ---------------- C05: the wrong value in the wrong place ---------------- *)
-Garbage == {Blank, Bad(1), Bad(2), Bad(3), Bad(4), Bad(5), Bad(6), Num(0 - 1), Num(2147483647), T(0, 99, 99), D(8)}
-GarbageQuick == {Blank, Bad(1), Bad(5), Num(0 - 1)}
+Garbage == {Blank, Bad(1), Bad(2), Bad(3), Bad(4), Bad(5), Bad(6), Bad(7), Bad(8), Bad(9), Bad(10), Num(0 - 1), Num(2147483647), T(0, 99, 99), D(8)}
+GarbageQuick == {Blank, Bad(1), Bad(5), Bad(7), Bad(10), Num(0 - 1)}
 PoolC05(G) ==
     UNION {UNION {{MkCase(SetCell(BaseFeed, f, n, c, g), TRUE, NoBase, FALSE, "", 0) : g \in G, c \in DOMAIN BaseFeed[f][n]}
                     : n \in {1, Len(BaseFeed[f])}} : f \in Range(Files)}
@@ -217,8 +231,19 @@ PoolC05(G) ==
                 ga \in {Blank, Bad(1), Bad(5)}, gb \in {Blank, Bad(1), Bad(5)}}
            : f \in {"stop_times.txt", "shapes.txt"}}
 
-Cases == CASE Pool = "C01" -> PoolC01(0) [] Pool = "C03stops" -> PoolC03stops(0) [] Pool = "C03refs" -> PoolC03refs(0) [] Pool = "C08" -> PoolC08(0)
-           [] Pool = "C09" -> PoolC09(0) [] Pool = "C09pairs" -> PoolC09pairs(0) [] Pool = "C10" -> PoolC10(0) [] Pool = "C11" -> PoolC11(0) [] Pool = "C11b" -> PoolC11b(0) [] Pool = "C05" -> PoolC05(Garbage) [] Pool = "C05q" -> PoolC05(GarbageQuick)
+(* parent chains: self references, 2- and 3-cycles, chains leading into a cycle, in several row orders *)
+PoolC05cyc(z) ==
+    {MkCase(SetRows(SetRows(SetRows(BaseFeed, "stops.txt", q), "transfers.txt", <<>>),
+                    "stop_times.txt", <<StopTime(1, 1, 1, T(1, 0, 0), T(1, 0, 0))>>), i, NoBase, FALSE, "", 0)
+        : i \in BOOLEAN,
+          q \in {<<HStop(Id(1), Id(1))>>, <<HStop(Id(1), Id(2)), HStop(Id(2), Id(1))>>, <<HStop(Id(1), Id(2)), HStop(Id(2), Id(3)), HStop(Id(3), Id(1))>>,
+                 <<HStop(Id(1), Id(2)), HStop(Id(2), Id(3)), HStop(Id(3), Id(2))>>, <<HStop(Id(3), Id(2)), HStop(Id(2), Id(3)), HStop(Id(1), Id(2))>>,
+                 <<HStop(Id(1), Id(2)), HStop(Id(2), Id(3)), HStop(Id(3), Id(4)), HStop(Id(4), Id(5)), HStop(Id(5), Id(1))>>,
+                 <<HStop(Id(5), Id(4)), HStop(Id(4), Id(3)), HStop(Id(3), Id(2)), HStop(Id(2), Id(1)), HStop(Id(1), Id(5)), HStop(Id(6), Id(1))>>,
+                 <<HStop(Id(1), Id(2)), HStop(Id(1), Id(1)), HStop(Id(2), Id(1))>>}}
+
+Cases == CASE Pool = "C01" -> PoolC01(0) [] Pool = "C03stops" -> PoolC03stops(0) [] Pool = "C03refs" -> PoolC03refs(0) [] Pool = "C08" -> PoolC08(0) [] Pool = "C08files" -> PoolC08files(0)
+           [] Pool = "C09" -> PoolC09(0) [] Pool = "C09pairs" -> PoolC09pairs(0) [] Pool = "C10" -> PoolC10(0) [] Pool = "C11" -> PoolC11(0) [] Pool = "C11q" -> PoolC11(1) [] Pool = "C11b" -> PoolC11b(0) [] Pool = "C05cyc" -> PoolC05cyc(0) [] Pool = "C05" -> PoolC05(Garbage) [] Pool = "C05q" -> PoolC05(GarbageQuick)
 
 (* ---------------- the machine ---------------- *)
 Init == /\ case \in Cases /\ fi = 1 /\ ri = 1 /\ st = EmptySt /\ pc = "rows"
